@@ -79,12 +79,15 @@ def spell(rng, d):
 def rand_fields(rng, big=True):
     def n():
         r = rng.random()
-        if r < 0.7:
+        if r < 0.6:
             return rng.randint(0, 12)
+        if r < 0.75:     # boundaries of the value type and of narrower integer types
+            return rng.choice([2 ** 31 - 1, 2 ** 31, 2 ** 31 + 1, 2 ** 32 - 2, 2 ** 32 - 1, 2 ** 16, 2 ** 24, 3000000000, 10 ** 9])
         if big and r < 0.85:
-            return rng.choice([2 ** 31, 2 ** 32 - 1, 2 ** 32, 2 ** 64, 10 ** 12])
+            return rng.choice([2 ** 32, 2 ** 64, 10 ** 12, 2 ** 32 + 5])
         return rng.randint(0, 10 ** rng.randint(1, 9))
-    d = {"epoch": n() if rng.random() < 0.2 else 0, "release": [n() for _ in range(rng.randint(1, 5))], "pre": None, "post": None,
+    rl = rng.randint(1, 5) if rng.random() < 0.85 else rng.randint(6, 10)
+    d = {"epoch": n() if rng.random() < 0.2 else 0, "release": [n() for _ in range(rl)], "pre": None, "post": None,
          "dev": None, "local": None}
     if rng.random() < 0.4:
         d["pre"] = (rng.choice(["a", "b", "rc"]), n())
@@ -95,6 +98,29 @@ def rand_fields(rng, big=True):
     if rng.random() < 0.3:
         d["local"] = [rng.choice([n(), "abc", "x1", "ubuntu", "1a", "g" + "%x" % rng.randint(0, 2 ** 28)]) for _ in range(rng.randint(1, 4))]
     return d
+
+
+def perturb(rng, a):
+    """a copy of a with one field (or one release position) changed"""
+    b = dict(a)
+    k = rng.choice(["epoch", "release", "release", "pre", "post", "dev", "local"])
+    f = rand_fields(rng, big=False)
+    if k == "release":
+        rel = list(a["release"])
+        r = rng.random()
+        if r < 0.5:
+            i = rng.randrange(len(rel))
+            rel[i] = rng.choice([rel[i] + 1, max(0, rel[i] - 1), f["release"][0]])
+        elif r < 0.8:
+            rel = rel + [0] * rng.randint(0, 3) + [rng.choice([0, 1, 2])]
+        else:
+            rel = rel[:max(1, len(rel) - 1)]
+        b["release"] = rel
+    elif k in ("post", "dev") and a[k] is not None and rng.random() < 0.5:
+        b[k] = rng.choice([a[k] + 1, max(0, a[k] - 1), 0, 2 ** 32 - 1, 2 ** 31])
+    else:
+        b[k] = f[k]
+    return b
 
 
 def mutations(s, rng, k):
